@@ -45,7 +45,7 @@ def c11():
 
 # ------------------------------------------------------------------------------------------- C14
 META["C14"] = {
-    "bounds": "lz4::decompress on exact-size buffers: in_size 13..16 x out_size in_size+1..24 (quick subset), up to 20 x 32 (thorough); all input bytes symbolic",
+    "bounds": "lz4::decompress on exact-size buffers: in_size 13..16 x out_size in_size+1..24 (quick subset), up to 20 x 32 (thorough); all input bytes symbolic; plus shaped blocks lz4_shape_l<L0>_m<ML>_l<L1>: two sequences with concrete tokens (L0 = 0..14 literals, one match of ML = 4..18 bytes at any distance, L1 in {5,6,8} final literals; quick: L0 in {1,9,12}, L1 in {5,6}), offsets and data bytes arbitrary (in up to 26, out up to 40)",
     "outside": "blocks > 20 bytes / outputs > 32 bytes; blocks shorter than the decoder's documented 13-byte minimum; segment-level equality of compressed vs uncompressed fonts (content equality of the decompressed table is what is decided)",
     "assumptions": ["byte-wise reference LZ4 block decoder in harness/C14_lz4.cpp"],
 }
@@ -61,6 +61,16 @@ def c14():
             us = {"read_literal": i + 1, "safe_copy": o + 1, "overrun_copy": o // 8 + 2, "fast_copy": o // 8 + 2, "decompress": i // 3 + 2,
                   "ref_ext": i + 1, "ref_copy_lit": i + 1, "ref_copy_match": o + 1, "ref_lz4": i // 3 + 2, "vh_bytes": i + 1, "vh_lz4": o + 1}
             qs.append(Q(f"lz4_in{i}_out{o}", "C14_lz4.cpp", "vh_lz4", {"IN": i, "OUT": o}, unwind=o + 3, unwindset=us, tiers=tiers))
+    # shaped blocks: L0 literals, a match of ML bytes (any distance), then a final run of L1 literals; tokens concrete, everything else arbitrary
+    for l0 in range(0, 15):
+        for ml in range(4, 19):
+            for l1 in (5, 6, 8):
+                i, o = 1 + l0 + 2 + 1 + l1, l0 + ml + l1
+                quick = l0 in (1, 9, 12) and l1 in (5, 6)
+                us = {"read_literal": i + 1, "safe_copy": o + 1, "overrun_copy": o // 8 + 2, "fast_copy": o // 8 + 2, "decompress": 5,
+                      "ref_ext": i + 1, "ref_copy_lit": i + 1, "ref_copy_match": o + 1, "ref_lz4": 5, "vh_bytes": i + 1, "vh_lz4": o + 1}
+                qs.append(Q(f"lz4_shape_l{l0}_m{ml}_l{l1}", "C14_lz4.cpp", "vh_lz4", {"IN": i, "OUT": o, "TOK0": (l0 << 4) | (ml - 4), "TOK1": l1 << 4}, unwind=o + 3, unwindset=us,
+                            tiers=("quick", "thorough") if quick else ("thorough",)))
     return qs
 
 # ------------------------------------------------------------------------------------------- C07
@@ -223,12 +233,14 @@ def c17():
             qs.append(Q(f"{e[3:]}_k{k}_dyadic", "C17_zones.cpp", e, {"K": k, "FB": "4096.0f"}, unwind=k + 6,
                         unwindset={"find_exclusion_under": 5, "remove": k + 3, "insert": k + 3, "lid:VectorINS_5Zones9Exclusion": k + 3, "erase": k + 3, "_insert_default": k + 3},
                         tiers=("thorough",), timeout=1700, cc_defs=["LL_REALLOC_UNREACHABLE"], dyadic=2, memgb=28))
+            if k == 1 and e == "vh_remove":      # ~115 s: the one-interval remove lemma belongs to the quick tier (a removal below/above the bounds needs an interval to damage)
+                qs[-1].tiers = ("quick", "thorough"); qs[-1].timeout = 600; qs[-1].est_gb = 8
     return qs
 
 # ------------------------------------------------------------------------------------------- C13
 META["C13"] = {
-    "bounds": "CmapSubtable4Lookup on every CheckCmapSubtable4-accepted, well-formed (sorted, disjoint, start<=end, even idRangeOffset) format-4 subtable with 1..3 segments and 0..2 glyphIdArray entries, all contents, all BMP code points; CmapSubtable12Lookup on well-formed format-12 subtables with 1..3 groups, all 32-bit code points",
-    "outside": "more segments/groups (binary-search depth 2 explored); subtable selection order and the cached path (CachedCmap) - see DESIGN 3.13 status; Silf pseudo-glyph fallback",
+    "bounds": "Silf::findPseudo (pseudo-glyph fallback) == first-match reference on every pseudo map of 0..5 entries, all code points; CmapSubtable4Lookup on every CheckCmapSubtable4-accepted, well-formed (sorted, disjoint, start<=end, even idRangeOffset) format-4 subtable with 1..3 segments and 0..2 glyphIdArray entries, all contents, all BMP code points; CmapSubtable12Lookup on well-formed format-12 subtables with 1..3 groups, all 32-bit code points",
+    "outside": "more segments/groups (binary-search depth 2 explored); subtable selection order (the cached path is decided under C10)",
     "assumptions": ["well-formedness as stated (the property's 'well-formed font')"],
 }
 @prop("C13")
@@ -239,6 +251,8 @@ def c13():
             tiers = ("quick", "thorough") if (n <= 2 and g <= 1) else ("thorough",)
             qs.append(Q(f"cmap4_ref_seg{n}_gid{g}", "cmap.cpp", "vh_cmap4_ref", {"NSEG": n, "NGID": g}, unwind=n + 4, unwindset={"vh_bytes": 64}, tiers=tiers))
         qs.append(Q(f"cmap12_ref_grp{n}", "cmap.cpp", "vh_cmap12_ref", {"NGRP": n}, unwind=n + 3, unwindset={"vh_bytes": 64}, tiers=("quick", "thorough") if n <= 2 else ("thorough",)))
+    for n in (0, 1, 2, 3, 5):
+        qs.append(Q(f"pseudo_n{n}", "silfload.cpp", "vh_pseudo", {"NPS": n}, unwind=n + 3))
     return qs
 def c01_cmap():
     qs = []
@@ -323,7 +337,17 @@ def c01_pass():
         qs.append(Q(f"readpass_header_len{L}" + ("_reach" if reach else ""), "passload.cpp", "vh_readpass", d, unwind=4, unwindset={"vh_bytes": L + 2},
                     stubs=PSTUBS, unit_flags={"Pass": ["-fno-inline"], "Code": ["-fno-inline"]}))
     return qs
-C01_PARTS = [c01_cmap, c01_name, c01_decoder, feat_queries, c01_pass]
+def c01_silf():
+    qs = []
+    for v4 in (0, 1):
+        osz = 4 if v4 else 2
+        for ncls, L in ((0, 4), (0, 6), (1, 4 + osz), (1, 4 + 2 * osz), (1, 4 + 2 * osz + 2), (1, 4 + 2 * osz + 12), (2, 4 + 3 * osz), (2, 4 + 3 * osz + 14)):
+            cases = sorted({0, L, 4 * (ncls + 1)} | set(range(0, L + 1, 2)))
+            qs.append(Q(f"classmap_v{4 if v4 else 2}_c{ncls}_len{L}", "silfload.cpp", "vh_classmap", {"LEN": L, "NCLS": ncls, "V4": v4}, unwind=L // 2 + 3,
+                        unwindset={"vh_bytes": L + 2, "readClassMap": L // 2 + 3, "readClassOffsets": ncls + 3, "findClassIndex": L // 2 + 3, "getClassGlyph": L // 2 + 3, "vh_classmap": ncls + 3,
+                                   "lid:ll_malloc_split": len(cases) + 2, "lid:ll_calloc_split": len(cases) + 2}, cc_defs=["LL_MEM_CASES=" + ",".join(map(str, cases))]))
+    return qs
+C01_PARTS = [c01_cmap, c01_name, c01_decoder, feat_queries, c01_pass, c01_silf]
 @prop("C01")
 def c01():
     qs = []
@@ -351,8 +375,7 @@ def c16():
                     cc_defs=["LL_MEM_CASES=0,1,4,6,19"]))
     for L, out in ((21, 14), (21, 16), (22, 16)):
         qs.append(Q(f"table_Silf_lz4_len{L}_out{out}", "C16_table.cpp", "vh_table", {"TAGV": 0x53696c66, "LEN": L, "HDRW": 0x08000000 | out}, unwind=8,
-                    unwindset={"vh_bytes": L + 1, "read_literal": L, "safe_copy": 40, "overrun_copy": 8, "fast_copy": 8, "decompress": L // 3 + 2},
-                    tiers=("thorough",), timeout=1700))
+                    unwindset={"vh_bytes": L + 1, "read_literal": L, "safe_copy": 40, "overrun_copy": 8, "fast_copy": 8, "decompress": L // 3 + 2}))     # ~20 s: the only queries in which decompression succeeds
     return qs
 
 # ------------------------------------------------------------------------------------------- C15
